@@ -290,11 +290,11 @@ M("c10-twin-ppi-empty-lt1", "C10", I, "        if len(interval_slices) == 0:\n  
 M("c10-twin-ppi-empty-lists", "C10", I, "            return interval_slices, interval_references, []\n", "            return [], [], []\n", expect="pass")
 
 # ------------------------------------------------------------------ a dict changed between lookup and forwarding (round-3 seed C11-r3b)
-_DS = "        return self.distribution.draw_sample(\n            n, **self._get_param_values(given), random_state=random_state\n        )"
-M("c08-twin-kw-store", ["C08", "C07", "C11"], D, _DS, "        kw = self._get_param_values(given)\n        kw[\"random_state\"] = random_state\n        return self.distribution.draw_sample(n, **kw)", expect="pass")
-M("c08-kw-loop-rewrite", ["C08", "C07", "C11"], D, _DS, "        kw = self._get_param_values(given)\n        for k_ in self.fixed_parameters:\n            kw[k_] = np.full_like(given, kw[k_])\n        return self.distribution.draw_sample(n, **kw, random_state=random_state)",
+_DS = "        return self.distribution.draw_sample(\n            n, **param_values, random_state=random_state\n        )"
+M("c08-twin-kw-store", ["C08", "C07", "C11"], D, _DS, "        kw = param_values\n        kw[\"random_state\"] = random_state\n        return self.distribution.draw_sample(n, **kw)", expect="pass")
+M("c08-kw-loop-rewrite", ["C08", "C07", "C11"], D, _DS, "        kw = param_values\n        for k_ in self.fixed_parameters:\n            kw[k_] = np.full_like(given, kw[k_])\n        return self.distribution.draw_sample(n, **kw, random_state=random_state)",
   rules={"C08": ["C08.forward"], "C07": ["C07.conditional"], "C11": ["C11.evalflow"]}, what="fixed parameters recast to the dtype of given before forwarding")
-M("c08-kw-store-override", ["C08", "C07"], D, _DS, "        kw = self._get_param_values(given)\n        kw[self.param_names[0]] = 1.0\n        return self.distribution.draw_sample(n, **kw, random_state=random_state)",
+M("c08-kw-store-override", ["C08", "C07"], D, _DS, "        kw = param_values\n        kw[self.param_names[0]] = 1.0\n        return self.distribution.draw_sample(n, **kw, random_state=random_state)",
   rules={"C08": ["C08.forward"], "C07": ["C07.conditional"]}, what="a parameter overwritten before forwarding")
 
 # ------------------------------------------------------------------ C12.start (round-3 seed C12-r3a)
@@ -343,3 +343,22 @@ M("c03-draw-cached", ["C03", "C07"], J, "        return self.inverse(self.model.
 # ------------------------------------------------------------------ C11.writers: who may write a parameter attribute (receiver-aware)
 M("c11-writer-foreign", "C11", J, "                samples[:, i] = dist.draw_sample(n, random_state=random_state)", "                dist.alpha = 1.0\n                samples[:, i] = dist.draw_sample(n, random_state=random_state)", rules=["C11.writers"], what="the joint sampler writes a parameter of a distribution")
 M("c11-writer-helper", "C11", D, "            dist = copy.deepcopy(self.distribution)\n", "            dist = copy.deepcopy(self.distribution)\n            setattr(dist, self.param_names[0], 1.0)\n", rules=["C11.writers"], what="setattr on a distribution outside its class")
+
+# ------------------------------------------------------------------ round 4 (audit) repairs reverted: D20-D26
+M("c14-callback-subset-reversed", ["C14", "C09"], DEP, "if set(self.dependent_parameters.values()).issubset(self._fitted_conditioners):", "if self._fitted_conditioners.issubset(self.dependent_parameters.values()):",
+  rules={"C14": ["C14.protocol"], "C09": ["C09.dependence"]}, what="original defect D20")
+M("c14-twin-callback-le", "C14", DEP, "if set(self.dependent_parameters.values()).issubset(self._fitted_conditioners):", "if set(self.dependent_parameters.values()) <= self._fitted_conditioners:", expect="pass")
+M("c14-twin-callback-superset", "C14", DEP, "if set(self.dependent_parameters.values()).issubset(self._fitted_conditioners):", "if self._fitted_conditioners.issuperset(self.dependent_parameters.values()):", expect="pass")
+M("c11-lognormal-mu-roundtrip", "C11", D, "        if self.f_mu is not None:\n            # log(exp(f_mu)) is f_mu only up to an absolute error, a fixed mu stays as given\n            self.mu = self.f_mu\n", "", rules=["C11.unmap"], what="original defect D21")
+M("c05-generic-kw-none", "C05", D, "            if arg is not None:\n                args_with_default[idx] = arg\n", "            args_with_default[idx] = arg\n", rules=["C05.generic"], what="original defect D22")
+M("c11-generic-writeback", "C11", D, "            setattr(self, par_name, par_value if fixed_value is None else fixed_value)", "            setattr(self, par_name, par_value)", rules=["C11.generic"], what="original defect D23")
+M("c10-width-edges-from-centres", "C10", I, "        interval_edges = np.append(interval_starts, interval_starts[-1] + width)", "        interval_edges = np.append(interval_references - 0.5 * width, interval_references[-1] + 0.5 * width)", rules=["C10.refs"], what="original defect D24")
+M("c10-width-empty-range", "C10", I, "        if len(interval_starts) == 0:\n            # nothing between the limits, slice_ reports the missing intervals\n            return [], [], []\n", "", rules=["C10.min"], what="original defect D24 (IndexError on an empty range)")
+_BC = ("        if np.ndim(given) > 0:\n            # one draw per conditioning value, also if no parameter varies with it\n            param_values = {\n                par_name: np.broadcast_to(value, np.shape(given))\n"
+       "                if np.ndim(value) == 0\n                else value\n                for par_name, value in param_values.items()\n            }\n")
+M("c08-draw-no-broadcast", ["C08", "C07"], D, _BC, "", rules={"C08": ["C08.forward"], "C07": ["C07.conditional"]}, what="original defect D25")
+M("c08-draw-broadcast-wrong-shape", ["C08", "C07"], D, "np.broadcast_to(value, np.shape(given))", "np.broadcast_to(value, np.shape(n))", rules={"C08": ["C08.forward"], "C07": ["C07.conditional"]})
+M("c08-draw-broadcast-changes-value", ["C08", "C07"], D, "np.broadcast_to(value, np.shape(given))", "np.broadcast_to(abs(value), np.shape(given))", rules={"C08": ["C08.forward"], "C07": ["C07.conditional"]})
+M("c07-vonmises-rvs-loc", ["C07", "C05"], D, "        return loc + sts.vonmises.rvs(shape, size=rvs_size, random_state=random_state)", "        return sts.vonmises.rvs(shape, loc, size=rvs_size, random_state=random_state)",
+  rules={"C07": ["C07.family"], "C05": ["C05.siblings"]}, what="original defect D26")
+M("c07-twin-vonmises-rvs-order", ["C07", "C05"], D, "        return loc + sts.vonmises.rvs(shape, size=rvs_size, random_state=random_state)", "        return sts.vonmises.rvs(shape, size=rvs_size, random_state=random_state) + loc", expect="pass")
